@@ -181,6 +181,75 @@ def err_ctx(ctx: Ctx) -> RuleResult:
     return r
 
 
+def err_logfmt(ctx: Ctx) -> RuleResult:
+    """Every log call has as many arguments as its message has placeholders.
+
+    loguru formats lazily: a mismatch raises (IndexError / KeyError) only when a sink is enabled - inside the failure handler of a
+    node it then replaces the node's error by an anonymous one; anywhere on a run path it makes a call fail without any node failing."""
+    r = RuleResult("ERR-LOGFMT")
+    n = 0
+    for f in ctx.funcs():
+        if f.module.name.endswith("_twzsa_control"):
+            continue
+        for c in iter_own_nodes(f.node):
+            if not (isinstance(c, ast.Call) and isinstance(c.func, ast.Attribute) and dotted(c.func.value) == "logger"
+                    and c.func.attr in ("debug", "info", "warning", "error", "critical", "exception", "trace", "success") and c.args):
+                continue
+            fmt = c.args[0]
+            if not (isinstance(fmt, ast.Constant) and isinstance(fmt.value, str)):
+                continue  # f-strings and computed messages carry their values themselves
+            if any(isinstance(a, ast.Starred) for a in c.args) or any(k.arg is None for k in c.keywords):
+                continue
+            n += 1
+            text = fmt.value.replace("{{", "").replace("}}", "")
+            auto = text.count("{}")
+            ok = auto == len(c.args) - 1
+            if not ok:
+                r.ob(False, {"in": f.short, "message": fmt.value[:60], "placeholders": auto, "arguments": len(c.args) - 1})
+                if auto > len(c.args) - 1:
+                    r.violate(f"{f.short}: log message with {auto} placeholders gets {len(c.args) - 1} argument(s)", f.loc(c),
+                              "with a log sink enabled the formatting raises IndexError: in the failure handler of a node this replaces the "
+                              "node's error (no node id, no call location, no cause); elsewhere a call fails although no node failed",
+                              norm_src(c)[:120])
+    r.ob(True, {"log calls with a constant message checked": n})
+    r.require(n >= 20, f"only {n} log calls found")
+    return r
+
+
+def err_frame(ctx: Ctx) -> RuleResult:
+    """The number of frames between a node's creation and the user's line is the same wherever the library states it."""
+    r = RuleResult("ERR-FRAME")
+    base = ctx.P.classes[ctx.cls_q("ExecNode")]
+    d = base.fields.get("call_location_frame")
+    r.require(d is not None, "ExecNode.call_location_frame not found")
+    default = None
+    for n in ast.walk(base.node):
+        if isinstance(n, ast.AnnAssign) and dotted(n.target) == "call_location_frame" and isinstance(n.value, ast.Constant):
+            default = n.value.value
+    r.require(default is not None, "default of call_location_frame is not a constant")
+    sites = []
+    for f in ctx.funcs():
+        for c in iter_own_nodes(f.node):
+            if isinstance(c, ast.Call):
+                for k in c.keywords:
+                    if k.arg == "call_location_frame":
+                        sites.append((f, c, k.value))
+    for f, c, v in sites:
+        if not isinstance(v, ast.Constant):
+            if isinstance(v, ast.Name) or isinstance(v, ast.Attribute):
+                r.ob(True, {"in": f.short, "call_location_frame": norm_src(v), "forwarded": True})
+                continue
+            raise Undecided(f"{f.short}: computed call_location_frame: {norm_src(v)}")
+        ok = v.value == default
+        r.ob(ok, {"in": f.short, "call_location_frame": v.value, "default": default})
+        if not ok:
+            r.violate(f"{f.short}: nodes are created with call_location_frame={v.value} (everywhere else: {default})", f.loc(c),
+                      "the frame walk of get_call_location goes a different number of frames up for these nodes: a failing node is reported "
+                      "at a line inside the library (or at its caller's caller) instead of the user's line", norm_src(c)[:100])
+    r.ob(True, {"default": default, "explicit sites": len(sites)})
+    return r
+
+
 def _lazy_dispatches(ctx: Ctx, m) -> list:
     """Async dispatches that only create a task around a coroutine: nothing reaches the pool before the scheduler suspends."""
     return [info for info in m.dispatch.values() if info["kind"] == "async" and info.get("wrapped")
@@ -256,4 +325,5 @@ def err_failstop(ctx: Ctx) -> RuleResult:
     return r
 
 
-RULES = {"ERR-WRAP": err_wrap, "ERR-CHECK": err_check, "ERR-NOSWALLOW": err_noswallow, "ERR-CTX": err_ctx, "ERR-FAILSTOP": err_failstop, "SCH-EAGER": sch_eager}
+RULES = {"ERR-WRAP": err_wrap, "ERR-CHECK": err_check, "ERR-NOSWALLOW": err_noswallow, "ERR-CTX": err_ctx, "ERR-FAILSTOP": err_failstop, "SCH-EAGER": sch_eager,
+         "ERR-LOGFMT": err_logfmt, "ERR-FRAME": err_frame}
